@@ -74,6 +74,11 @@ def budget(draw, min_sources=1, max_sources=4, allow_broken=True, rules_kinds=('
         # one merchant name, two categories: two rules share a [name] (e.g. Costco fuel vs Costco groceries) - category totals are sums over transactions
         if len(extra) >= 2 and draw(st.integers(0, 3)) > 0:
             extra[1] = dict(extra[1], name=extra[0]['name'], category=[c for c in R.CATEGORIES if c != extra[0]['category']][0], subcategory='Other Sub')
+        # two merchants whose names differ only in letter case ([Costco] and [COSTCO]): they are different merchants to `up`, explain and discover
+        if extra and len(words) >= 2 and draw(st.integers(0, 2)) == 0:
+            w2 = draw(st.sampled_from([w for w in words if w.title() != extra[0]['name'].split(' ', 1)[-1]] or words))
+            extra.insert(0, {'name': extra[0]['name'].upper(), 'match': ['match', 'contains', None, w2], 'category': draw(st.sampled_from(R.CATEGORIES)), 'subcategory': 'Upper Sub',
+                          'merchant': None, 'priority': None, 'tags': [], 'lets': [], 'fields': []})
         # rules deciding on what only one row of a repeated charge carries: its extra columns and its location
         customs = sorted({(c, v.strip()) for s_ in sources for r in s_['rows'] for c, v in r['customs'].items() if v.strip() and c in lang.FIELD_KEYS and '"' not in v and '\\' not in v})
         locs = sorted({r['loc'].strip() for s_ in sources for r in s_['rows'] if 'location' in s_['layout']['cols'] and r['loc'].strip()})
